@@ -188,6 +188,25 @@ Definition quat_of_rotvec (r : vec) : quat :=
 (* Pose.from_rot_vec: as_matrix stands for scipy's Rotation.from_rotvec(r).as_matrix() *)
 Definition pose_from_rotvec (as_matrix : vec -> mat) (r t : vec) : pose := Pose (as_matrix r) t.
 
+(* Rotation.from_quat(u) normalises u first; Pose.from_quat *)
+Definition qnorm (u : quat) : R := sqrt (qx u ^ 2 + qy u ^ 2 + qz u ^ 2 + qw u ^ 2).
+Definition quat_normalize (u : quat) : quat :=
+  Q4 (qx u / qnorm u) (qy u / qnorm u) (qz u / qnorm u) (qw u / qnorm u).
+Definition quat_neg (u : quat) : quat := Q4 (- qx u) (- qy u) (- qz u) (- qw u).
+Definition pose_from_quat (u : quat) (t : vec) : pose := Pose (quat_mat (quat_normalize u)) t.
+
+(* the getters: a rotation matrix determines its unit quaternion up to sign (C15_views_unique); scipy's as_quat /
+   as_rotvec work on the representative with w >= 0 and read the rotation vector off it:
+   angle = 2 atan2 (|v|, w), axis = v / |v| (zero vector for v = 0) *)
+Definition quat_canon (u : quat) : quat := if Rlt_dec (qw u) 0 then quat_neg u else u.
+Definition quat_to_rotvec (u : quat) : vec :=
+  let n := norm3 (qx u) (qy u) (qz u) in
+  let ang := 2 * atan2 n (qw u) in
+  V3 (nan_div (qx u) n * ang) (nan_div (qy u) n * ang) (nan_div (qz u) n * ang).
+
+(* Pose.scale(k): self._t_vec = self._t_vec * k *)
+Definition pscale (k : R) (P : pose) : pose := Pose (pR P) (V3 (vx (pt P) * k) (vy (pt P) * k) (vz (pt P) * k)).
+
 (* ------------------------------------------------------------------ lighthouse_geometry_solver.py *)
 (* _rotate_translate, one row:  cos th p + sin th (k x p) + (p . k)(1 - cos th) k + t,  k = nan_to_num (r / |r|) *)
 Definition solver_rotate_translate (p r t : vec) : vec :=
